@@ -6,10 +6,10 @@ CONSTANTS
  Subscribers = {2}
  MaxOps = 1
  MaxSends = 4
- MaxServes = 1
+ MaxServes = 2
  MaxApplies = 1
  Faults = FALSE
- MaxFaults = 1
+ MaxFaults = 2
 INVARIANT LogNoRepeats
 INVARIANT LogEndRecorded
 INVARIANT PerClientOrder
